@@ -24,7 +24,7 @@ SCHED_PATH = ("sched",)
 LEVEL = "exploration"
 QUICK_N = 400
 SCENARIO_TIMEOUT = 180
-PROBES = ["tie_mode", "score_exactly_zero", "quantised_scores", "dedup_off", "rollup_off", "decoys_off", "multi_collection", "no_prefix_multi",
+PROBES = ["tie_mode", "score_exactly_zero", "quantised_scores", "best_ranked_rows_are_decoys", "dedup_off", "rollup_off", "decoys_off", "multi_collection", "no_prefix_multi",
           "level_cols", "parquet", "spill_files>=2", "group_cut_by_chunk", "merge_chunk_small", "workers>1",
           "switches>0", "listing_permuted", "rollup_tool", "rollup_tool_multi_root", "degenerate_level",
           "conf_chunk_1", "level_batch_flush"]
@@ -86,6 +86,7 @@ def make_scenario(seed):
         "tables": tabs,
         "score_seed": rng.getrandbits(32),
         "score_mode": score_mode,
+        "top_decoys": rng.choice([0, 0, 0, 1, 3]),
         "tie_mode": tie,
         "conf": conf,
         "format": fmt,
@@ -258,7 +259,8 @@ def _degenerate(records, conf, level_cols):
 
 def run_scenario(scn, workdir):
     tables = [W.build_conf_table(p) for p in scn["tables"]]
-    scores = [W.gen_scores(t, f"{scn['score_seed']}|{i}", tie_mode=scn["tie_mode"], mode=scn.get("score_mode", "plain"))
+    scores = [W.gen_scores(t, f"{scn['score_seed']}|{i}", tie_mode=scn["tie_mode"], mode=scn.get("score_mode", "plain"),
+                           top_decoys=scn.get("top_decoys", 0))
               for i, t in enumerate(tables)]
     conf = scn["conf"]
     level_cols = tables[0]["meta"]["level_cols"]
@@ -289,6 +291,7 @@ def run_scenario(scn, workdir):
         "tie_mode": int(scn["tie_mode"]),
         "score_exactly_zero": int(any(v == 0.0 for sc in scores for v in sc)),
         "quantised_scores": int(scn.get("score_mode") == "quantised"),
+        "best_ranked_rows_are_decoys": int(bool(scn.get("top_decoys"))),
         "dedup_off": int(not conf["dedup"]),
         "rollup_off": int(not conf["rollup"]),
         "decoys_off": int(not conf["decoys"]),
@@ -307,7 +310,7 @@ def run_scenario(scn, workdir):
     }
     out = {
         "status": "ok",
-        "digest": digest([scn["tables"], scn["score_seed"], scn.get("score_mode"), scn["tie_mode"], conf, scn["format"], scn.get("row_group"), kn,
+        "digest": digest([scn["tables"], scn["score_seed"], scn.get("score_mode"), scn.get("top_decoys"), scn["tie_mode"], conf, scn["format"], scn.get("row_group"), kn,
                           scn["max_workers"], world.sched_digest(sch), scn.get("glob_seed")]),
         "nontrivial": bool(probes["spill_files>=2"] or multi_groups > 0),
         "probes": probes,
